@@ -15,7 +15,8 @@ def _prepare(crate_dir, info):
         shutil.copyfile('/repo/Cargo.lock', os.path.join(crate_dir, 'Cargo.lock'))
     gen = info.get('generate')
     if gen:
-        gen(crate_dir)
+        import kani_gen
+        info['items'] = getattr(kani_gen, gen)(crate_dir)
 
 
 def run_kani_unit(unit, info, tier):
